@@ -2,11 +2,11 @@ package prioh
 
 import (
 	"fmt"
-	"sync/atomic"
 	"math/rand"
 	"runtime"
 	"sort"
 	"sync"
+	"sync/atomic"
 	"testing"
 	"time"
 
@@ -184,10 +184,7 @@ recv:
 	lg.add(obs{E: "OC"})
 	close(work)
 	for err := range d.Err() {
-		note := "nil"
-		if err != nil {
-			note = err.Error()
-		}
+		note := errNote(err)
 		lg.add(obs{E: "EV", Note: note})
 	}
 	lg.add(obs{E: "EC"})
